@@ -789,6 +789,40 @@ func (f *FnVC) specCall(env *SEnv, e *spec.Expr, want types.Type) (Val, error) {
 				return Val{T: app("mkstr", SStr, sel(h, app("lref", SRef, x.T)), app("loff", BV(64), x.T), app("llen", BV(64), x.T)), Typ: types.Typ[types.String]}, nil
 			}
 			return Val{}, fmt.Errorf("bytes() of %s", x.T.Sort)
+		case "same":
+			// same(a, b): a and b are the same value representation (for byte sequences: same backing content, offset, length)
+			a, err := f.evalSpec(env, args[0], nil)
+			if err != nil {
+				return Val{}, err
+			}
+			b, err := f.evalSpec(env, args[1], a.Typ)
+			if err != nil {
+				return Val{}, err
+			}
+			if a.T.Sort != b.T.Sort {
+				return Val{}, fmt.Errorf("same() of %s and %s", a.T.Sort, b.T.Sort)
+			}
+			return Val{T: eq(a.T, b.T), Typ: boolT}, nil
+		case "upd":
+			// upd(d, i, v): the byte sequence d with position i set to v (same offset and length)
+			d, err := f.evalSpec(env, args[0], nil)
+			if err != nil {
+				return Val{}, err
+			}
+			if d.T.Sort != SStr {
+				return Val{}, fmt.Errorf("upd() of %s", d.T.Sort)
+			}
+			i, err := f.evalSpec(env, args[1], types.Typ[types.Int])
+			if err != nil {
+				return Val{}, err
+			}
+			v, err := f.evalSpec(env, args[2], types.Typ[types.Uint8])
+			if err != nil {
+				return Val{}, err
+			}
+			arr := app("sarr", arraySort(BV(64), BV(8)), d.T)
+			off := app("soff", BV(64), d.T)
+			return Val{T: app("mkstr", SStr, store(arr, app("bvadd", BV(64), off, i.T), v.T), off, app("slen", BV(64), d.T)), Typ: types.Typ[types.String]}, nil
 		case "be":
 			// be(x, n): big-endian value of the first n bytes of x as a bit-vector of 8n bits
 			x, err := f.evalSpec(env, args[0], nil)
@@ -799,9 +833,16 @@ func (f *FnVC) specCall(env *SEnv, e *spec.Expr, want types.Type) (Val, error) {
 			if err != nil || n <= 0 || n > 64 {
 				return Val{}, fmt.Errorf("be(x, n): n must be a literal 1..64")
 			}
+			off := 0
+			if len(args) > 2 { // be(x, n, off): starting at byte off
+				off, err = strconv.Atoi(args[2].Tok)
+				if err != nil {
+					return Val{}, fmt.Errorf("be(x, n, off): off must be a literal")
+				}
+			}
 			var parts []string
 			for i := 0; i < n; i++ {
-				b, err := f.byteOf(env, x, u64(uint64(i)))
+				b, err := f.byteOf(env, x, u64(uint64(off+i)))
 				if err != nil {
 					return Val{}, err
 				}
